@@ -23,6 +23,8 @@ structure Built (s : TH) (L : Lang) (g : Graph) : Prop where
   links : (linksOf s).Perm g.links
   /-- … and the `parents` dictionaries hold the same links -/
   mirrored : (linksOf s).Perm (parentLinksOf s)
+  /-- the variable definitions of the specification held by the heap are encoded step expressions -/
+  vars_wf : ∀ a ∈ s.spec.assets, ∀ v ∈ a.variables, ExprWF v.stepExpression
 
 variable {s : TH} {L : Lang} {g : Graph}
 
